@@ -275,6 +275,15 @@ def m_reshape2(variant=0):
                   [_i64("s1", [6, 4]), _i64("s2", s2)])
 
 
+def m_reshape_allowzero():
+    """Reshape<allowzero=1>(Reshape(x)) on a tensor with a size-0 dim whose fused target shape keeps a literal 0:
+    the ReshapeReshape rule takes its 'keep allowzero' branch (another per-match stash field)."""
+    nodes = [helper.make_node("Reshape", ["x", "s1"], ["r1"], name="rs1", allowzero=1),
+             helper.make_node("Reshape", ["r1", "s2"], ["r2"], name="rs2", allowzero=1),
+             helper.make_node("Abs", ["r2"], ["y"], name="abs")]
+    return _model(nodes, [_vi("x", [3, 0, 8])], [_vi("y", [3, 0])], [_i64("s1", [24, 0]), _i64("s2", [3, 0])])
+
+
 def m_padconv(variant=0):
     pads = [[0, 0, 1, 1, 0, 0, 1, 1], [0, 0, 2, 0, 0, 0, 0, 2]][variant]
     nodes = [helper.make_node("Pad", ["x", "pads"], ["xp"], name="pad"),
@@ -490,6 +499,10 @@ def ev_opt_reshape2():
     return _optimize(m_reshape2(0))
 
 
+def ev_opt_reshape_az():
+    return _optimize(m_reshape_allowzero())
+
+
 def ev_opt_padconv():
     out = _optimize(m_padconv(0))
     out["model_b"] = _ser_plain(onnxscript.optimizer.optimize(m_padconv(1)))
@@ -689,7 +702,7 @@ def ev_use_g():
 
 EVENTS = {
     "tr_s1": ev_tr_s1, "tr_s2": ev_tr_s2, "tr_s3": ev_tr_s3,
-    "opt_reshape2": ev_opt_reshape2, "opt_padconv": ev_opt_padconv, "opt_matreshape": ev_opt_matreshape,
+    "opt_reshape2": ev_opt_reshape2, "opt_reshape_az": ev_opt_reshape_az, "opt_padconv": ev_opt_padconv, "opt_matreshape": ev_opt_matreshape,
     "opt_nearmiss": ev_opt_nearmiss, "opt_mixed": ev_opt_mixed,
     "rw_checkraises": ev_rw_checkraises, "rw_patternraises": ev_rw_patternraises, "rw_alt": ev_rw_alt,
     "rw_rms": ev_rw_rms, "fold_reuse": ev_fold_reuse, "convert": ev_convert,
